@@ -6,7 +6,7 @@ Require Import ExtrOcamlBasic.
 Require Import GM.model.Base GM.model.Util GM.model.UtilI GM.model.HtmlDecode.
 Require Import GM.model.AstHeap GM.model.AstSpec.
 Require Import GM.model.Reader GM.model.ReaderI.
-Require Import GM.model.Prio GM.model.Bufio.
+Require Import GM.model.Prio GM.model.Bufio GM.model.Ids.
 Extraction Language OCaml.
 Extraction "model.ml"
   IsPunct IsSpace EscapeHTML URLEscape UnescapePunctuations ResolveNumericReferences ResolveEntityNames
@@ -20,4 +20,5 @@ Extraction "model.ml"
   b_advance_and_set_padding b_preceding BSkipBlankLines BSkipSpaces BReadRune BFindClosure b_value b_position
   seg_value SegTrimRightSpace SegTrimLeftSpace seg_between
   block_candidates inline_table consult transformer_order renderer_table dispatch render_ktree
-  new_dest new_bw bw_step bw_flush.
+  new_dest new_bw bw_step bw_flush
+  IdsGenerate put.
